@@ -167,10 +167,44 @@ func VerifyFunc(ld *Loader, pkg *Pkg, key string) (res *FuncResult) {
 		// a havoc contract with promises: callers rely on nothing but the
 		// promised clauses, and only those are checked against the body (the
 		// body's own safety obligations belong to no contract here)
+		// with return clauses only, what comes after the last promised return's
+		// top-level statement cannot run before it: its obligations support nothing
+		limit := -1
+		if len(ct.Ensures) == 0 {
+			want := map[int]bool{}
+			for _, rc := range ct.Returns {
+				var k int
+				fmt.Sscan(rc.Case, &k)
+				want[k] = true
+			}
+			for _, top := range fd.Body.List {
+				ast.Inspect(top, func(nd ast.Node) bool {
+					switch t := nd.(type) {
+					case *ast.FuncLit:
+						return false
+					case *ast.ReturnStmt:
+						if want[x.returnOrdinal(t)] {
+							if e := ld.fset.Position(top.End()).Offset; e > limit {
+								limit = e
+							}
+						}
+					}
+					return true
+				})
+			}
+		}
 		var keep []*Obligation
 		for _, o := range vc.obls {
+			if limit >= 0 && o.Kind != "return" && o.Pos.IsValid() && o.Pos.Offset >= limit {
+				continue
+			}
 			switch o.Kind {
-			case "post", "return", "subset", "exists":
+			case "bounds", "nilmap", "nilptr", "div0", "shift", "panic", "overflow", "decreases":
+				// the body's own safety: not promised (an execution that panics
+				// returns nothing, the promised clauses are partial-correctness)
+			default:
+				// the promised clauses and what their proof rests on (loop
+				// invariants, callee preconditions, frames)
 				keep = append(keep, o)
 			}
 		}
